@@ -95,6 +95,7 @@ def run_history(case, second=False):
     from curtsies.formatstringarray import fsarray
     H, W = case["H"], case["W"]
     term = Terminal(H, W)
+    persist = {}
     res = dict(clause="", detail="", step=None, engine="", disagree="", compared=0)
     chunk = []
     pyt = [None, None]
@@ -132,6 +133,21 @@ def run_history(case, second=False):
             _, rowspecs, cur, kind = st[:4]
             rows = [mkrow(r) for r in rowspecs]
             array = fsarray(rows) if kind == "fsarray" else rows
+            if case.get("reuse"):
+                # the caller keeps ONE buffer object and edits it in place between renders (what an application's paint loop does)
+                if kind == "fsarray":
+                    if "fs" in persist:
+                        persist["fs"].rows[:] = array.rows
+                        persist["fs"].num_columns = array.num_columns
+                        array = persist["fs"]
+                    else:
+                        persist["fs"] = array
+                else:
+                    if "list" in persist:
+                        persist["list"][:] = rows
+                        array = persist["list"]
+                    else:
+                        persist["list"] = array
             want = [cells(array[k]) for k in range(len(array))]
             scrolls0, wraps0 = term.scrolls, term.wraps
             try:
@@ -308,7 +324,9 @@ def _batch(job):
     else:
         cases = [rand_case(s) for s in range(lo, hi)]
     fails, engines, disagree, compared, nontrivial, kinds = [], [], [], 0, 0, {}
-    for c in cases:
+    for n_, c in enumerate(cases):
+        if (lo + n_) % 3 == 1:
+            c = dict(c, reuse=True)         # one buffer object edited in place between the renders
         r = _judge(c, second)
         compared += r["compared"]
         nontrivial += any(st[0] == "render" and st[1] for st in c["steps"])
